@@ -72,6 +72,9 @@ func runHandle(id string, parts []string) string {
 	}
 	key := hx.QuestionKey(q)
 	beh := parseBehaviour(f["up"])
+	if d := f["dl"]; d != "" {
+		beh.Delay = time.Duration(hx.MustAtoi(d)) * time.Millisecond
+	}
 	env.SetBehaviour(key, beh)
 	timeout := 9 * time.Second
 	start := time.Now()
